@@ -26,7 +26,7 @@ from sx import Sym, Str
 
 PROP = "C10"
 PROP_FILE = "C10_EntJson"
-THEOREMS = []
+THEOREMS = ["c10_value_rt", "c10_reserved", "c10_context_rt", "c10_context_rt_refuted", "c10_implicit_explicit_partial"]
 LEVEL = "proof" if THEOREMS else "exploration"
 
 MANIFEST = {
@@ -624,6 +624,151 @@ def is_ctx_finding(case):
         and not has_reserved(case["pairs"][0][1])
 
 
+
+# ====================================================================== the model side (coq/model/EntJsonRun.v)
+def cp_key(s):
+    return [ord(c) for c in s]
+
+
+def has_float(j):
+    if isinstance(j, float):
+        return True
+    if isinstance(j, dict):
+        return any(has_float(x) for x in j.values())
+    if isinstance(j, list):
+        return any(has_float(x) for x in j)
+    return False
+
+
+def json_sx(j):
+    if j is None:
+        return Sym("null")
+    if isinstance(j, bool):
+        return [Sym("b"), Sym("true" if j else "false")]
+    if isinstance(j, int):
+        return [Sym("i"), j]
+    if isinstance(j, str):
+        return [Sym("s"), Str(j)]
+    if isinstance(j, list):
+        return [Sym("a"), [json_sx(x) for x in j]]
+    return [Sym("o"), [[Str(k), json_sx(j[k])] for k in sorted(j, key=cp_key)]]
+
+
+def sx_json(s):
+    if s == "null":
+        return None
+    t = s[0]
+    if t == "b":
+        return s[1] == "true"
+    if t == "i":
+        return s[1]
+    if t == "s":
+        return Str(s[1]).text()
+    if t == "a":
+        return [sx_json(x) for x in s[1]]
+    return {Str(k).text(): sx_json(x) for k, x in s[1]}
+
+
+def rval_sx(v):
+    k = tag(v)
+    if k == "b":
+        return [Sym("b"), Sym("true" if v["b"] else "false")]
+    if k == "l":
+        return [Sym("l"), int(v["l"])]
+    if k == "s":
+        return [Sym("s"), Str(v["s"])]
+    if k == "e":
+        return [Sym("e"), Str(v["e"]["type"]), Str(v["e"]["id"])]
+    if k == "set":
+        return [Sym("set"), [rval_sx(x) for x in v["set"]]]
+    if k == "rec":
+        return [Sym("rec"), [[Str(kk), rval_sx(x)] for kk, x in v["rec"]]]
+    return [Sym("x"), Str(v["x"][0]), [[Sym("s"), Str(a)] for a in v["x"][1:]]]
+
+
+def sx_rval(s):
+    t = s[0]
+    if t == "b":
+        return {"b": s[1] == "true"}
+    if t == "l":
+        return {"l": str(s[1])}
+    if t == "s":
+        return {"s": Str(s[1]).text()}
+    if t == "e":
+        return {"e": {"type": Str(s[1]).text(), "id": Str(s[2]).text()}}
+    if t == "set":
+        return {"set": [sx_rval(x) for x in s[1]]}
+    if t == "rec":
+        return {"rec": [[Str(k).text(), sx_rval(x)] for k, x in s[1]]}
+    args = []
+    for a in s[2]:
+        args.append(Str(a[1]).text() if a[0] == "s" else sx_rval(a))
+    return {"x": [Str(s[1]).text()] + args}
+
+
+def sty_sx(t):
+    k = t[0]
+    if k in ("bool", "long", "string"):
+        return Sym(k)
+    if k == "set":
+        return [Sym("set"), sty_sx(t[1])]
+    if k == "entity":
+        return [Sym("entity"), Str(S.join_name(t[1]))]
+    if k == "ext":
+        return [Sym("ext"), Str(t[1])]
+    if k == "record":
+        attrs = sorted(t[1], key=lambda a: cp_key(a[0]))
+        return [Sym("record"), [[Str(a), sty_sx(ty), Sym("true" if r else "false")] for a, ty, r in attrs],
+                Sym("true" if t[2] else "false")]
+    raise ValueError(t)
+
+
+def model_cmds_of(case):
+    """[(index of the Rust answer it is compared with, what, sexp command)]"""
+    out = []
+    if case["kind"] == "ctx_rt":
+        out.append((0, "to_json", [Sym("entjson"), Sym("ctx_to_json"), [[Str(k), rval_sx(v)] for k, v in case["pairs"]]]))
+    elif case["kind"] in ("variants_context", "paths") and case["cmds"][0]["kind"] == "context":
+        for i, c in enumerate(case["cmds"]):
+            if "json" not in c or has_float(c["json"]):
+                continue
+            if "schema" in c and case.get("ctx_type") is None:
+                continue
+            ty = [Sym("some"), sty_sx(case["ctx_type"])] if "schema" in c else Sym("none")
+            out.append((i, "parse", [Sym("entjson"), Sym("ctx_parse"), ty, json_sx(c["json"])]))
+    return out
+
+
+def bad_ext_in(j):
+    t = json.dumps(j)
+    return any(json.dumps(a) in t for _, a in BAD_EXT)
+
+
+def compare_model(what, cmd, rust, model):
+    """None if the model's answer and the implementation's agree, else a description"""
+    if model == "bad_input" or model == "unknown_command" or not isinstance(model, list):
+        return "model could not decode the command: %r" % (model,)
+    if what == "to_json":
+        if model[0] == "ok":
+            if "json" not in rust:
+                return "model serialises, implementation refuses"
+            return None if canon_json(sx_json(model[1])) == canon_json(rust["json"]) else "serialised trees differ"
+        return None if "to_json_error" in rust else "model refuses (%s), implementation serialises" % model[1]
+    v = verdict(rust)
+    if model[0] == "ok":
+        if v[0] == "ok":
+            m = canon({"context": [[Str(k).text(), sx_rval(x)] for k, x in model[1]]})["context"]
+            return None if strip_sem(v[1]) == m else "parsed values differ"
+        if v[0] == "err" and v[2] == "Evaluation" and bad_ext_in(cmd["json"]):
+            return None     # a malformed extension string: evaluation of the constructor call is outside the model
+        return "model accepts, implementation rejects %r" % (v[:3],)
+    if v[0] == "ok":
+        return "model rejects (%s), implementation accepts" % model[1]
+    if v[0] == "err" and v[2].replace("Conf:", "") == model[1]:
+        return None
+    return "error classes differ: model %s, implementation %r" % (model[1], v[:3])
+
+
 # ====================================================================== generation
 def gen_cases(rng, tier):
     cases = []
@@ -769,9 +914,19 @@ def evaluate(case, res, schema_actions):
 def run(rep, tier, seed):
     ob, dis, details, failures = fw.check_props(PROP_FILE, THEOREMS) if THEOREMS else (0, 0, {}, [])
     harness = fw.build_harness()
+    driver = fw.build_model_driver()
     rng = random.Random(seed)
     cases = gen_cases(rng, tier)
     results, nevals = run_cases(harness, cases)
+    # model side
+    mcmds, mmeta = [], []
+    for ci, c in enumerate(cases):
+        for (ri, what, cmd) in model_cmds_of(c):
+            mcmds.append(cmd)
+            mmeta.append((ci, ri, what))
+    mres = fw.run_model(driver, mcmds)
+    corr = {"compared": 0, "differences": 0, "to_json": 0, "parse_typed": 0, "parse_untyped": 0}
+    oracle_bad = set()
     # the schema's action entities, as reported by Schema::action_entities (used by oracle 2)
     schema_actions = {}
     for c, r in zip(cases, results):
@@ -818,6 +973,21 @@ def run(rep, tier, seed):
             payload = {"property": PROP, "kind": "oracle: " + "; ".join(bad[:4]), "case": slim(c),
                        "rust": json.loads(json.dumps(r))[:4], "replay_cmd": "./check C10 --replay <this file>"}
             rep.violation(payload, key=key)
+            oracle_bad.add(id(c))
+    for (ci, ri, what), cmd, m in zip(mmeta, mcmds, mres):
+        c = cases[ci]
+        corr["compared"] += 1
+        corr["to_json" if what == "to_json" else ("parse_typed" if "schema" in c["cmds"][ri] else "parse_untyped")] += 1
+        d = compare_model(what, c["cmds"][ri], results[ci][ri], m)
+        if d and id(c) not in oracle_bad:
+            corr["differences"] += 1
+            rep.violation({"property": PROP, "kind": "correspondence: " + d,
+                           "model_function": "EntJson.context_to_json" if what == "to_json" else "EntJson.context_from_json / json_to_value",
+                           "rust_entry_point": "Context::to_json_value" if what == "to_json" else "Context::from_json_value",
+                           "theorems_whose_transfer_is_lost": THEOREMS,
+                           "rust_cmd": c["cmds"][ri], "model_cmd": __import__("sx").dump(cmd), "rust": strip_sem(results[ci][ri]),
+                           "model": repr(m)}, no_failing_input=True)
+    nx = fw.coq_crosscheck(mcmds[:40], mres[:40], PROP)
     for f in failures:
         rep.violation({"property": PROP, "kind": "proof obligation no longer checks", "detail": f}, no_failing_input=True)
     rep.coverage = {
@@ -840,7 +1010,7 @@ def run(rep, tier, seed):
         "malformed_accept": stats["malformed_accept"], "malformed_reject": stats["malformed_reject"],
         "reject_class_histogram": stats["reject_classes"],
         "context_top_level_reserved_key_hits (finding)": stats["ctx_finding_hits"],
-        "oracle_failures_other": stats["problems"],
+        "oracle_failures_other": stats["problems"], "correspondence": corr, "vm_compute_crosscheck_cases": nx,
         "samples": samples,
     }
     rep.assumptions = [
